@@ -138,6 +138,14 @@ mod runtime;
 #[cfg(test)]
 mod testing;
 
+// Verification hook (off by default): compiles the harnesses kept in /verif
+// into the crate so they can build symbolic states directly.
+#[cfg(any(kani, caio_foca_verif))]
+#[allow(missing_docs, unreachable_pub, dead_code, unused, private_interfaces, clippy::all)]
+#[path = "/verif/kani/incrate/mod.rs"]
+#[doc(hidden)]
+pub mod verif_kani;
+
 use crate::{
     broadcast::Broadcasts,
     member::{ApplySummary, Members},
